@@ -9,7 +9,7 @@ import json, os, re, importlib.util
 import vcommon as V
 
 META = dict(
-    text="Lean 4, on the executable model of the code that exists (Model/VM.lean, Model/Gen.lean; tied to zygo/environment.go PrepareCallExprArgs/CallResolved/Apply, vm.go CallExprInstr/PushLazyArgInstr, expressions.go SexpLazyArg.Force/IsLazyCallArg, functions.go ForceFunction/SubstituteFunction, generator.go GenerateCallArgsForFunction by the `lazy` correspondence). Proved for every function object, argument list, machine state and amount of fuel (Props/C16.lean, 23 theorems): (a) preparing a call is its plan — a lazy position is `allocThunk` (one thunk with the expression, the current scope stack and function; one operand) and runs nothing, a strict position is exactly one evalCallExpr whose value is the operand, in order, all before callFunction (position forms lazy_not_evaluated_at_call / strict_args_evaluated_once_before_call, closed form for all-lazy calls, same effect for the compile-time PushLazyArgInstr); (b) force_memoises: a successful force stores its value, and after ANY further activity of the machine (Reach: instructions, calls, applies, forces, later program texts, failed or not) every force returns it with the state — trace included — unchanged; this rests on allPres (Proofs/Lazy.lean): all 13 mutually recursive functions of the machine, every instruction and outcome, only extend the thunk table (expression, captured stack, function immutable; a stored value stays); (c) force_in_callers_env: the thunk keeps the call site's scope stack and function for ever and force runs the compiled expression on exactly that stack inside a function closed over it with the call site's function as parent; lookups there equal the call site's lookups (force_lookup_is_callsite_lookup_partial, two hypotheses named); (d) strict_never_receives_thunk: the run-time, compile-time (self tail call) and apply/map decisions are one predicate of the function object the callee evaluated to, so name/alias/parameter/computed callee cannot differ (every non-tail call is one CallExprInstr: callee value first); variadic tails, Go builtins and unknown callees are strict; apply hands lazy positions already-forced value thunks; (e) source_recoverable: substitute returns the expression the thunk was made from, unevaluated, at any later time. The full statement LazySemantics (machine = call-by-need reference evaluator on class, value, trace for all programs) is stated, not proved; it is held by the 3-way correspondence of channel `lazy`: scenario generators over every mix of lazy/strict/variadic parameters x 16 call routes (direct, alias, parameter, three computed callees, apply array/list, map array/list, wrappers with locals / lazy parameter / closure over the free variable, recursion, self tail call, self tail call with a nested same-name defn, typed func) x 13 argument kinds (effects, errors, free variables, and expressions that only READ mutable state: bare variable, compound, closure calls) x mutation points (the callee changes that state before any use / between parameters / between two forces; later texts change it before and between forces of a kept thunk) x 19 use patterns (0/1/2/3 forces, nested closure, kept and forced in later texts, substitute, thunk of thunk, through strict/lazy/ignoring helpers, shadowing let) plus an exhaustive small scope and a malformed stream.",
+    text="Lean 4, on the executable model of the code that exists (Model/VM.lean, Model/Gen.lean; tied to zygo/environment.go PrepareCallExprArgs/CallResolved/Apply, vm.go CallExprInstr/PushLazyArgInstr, expressions.go SexpLazyArg.Force/IsLazyCallArg, functions.go ForceFunction/SubstituteFunction, generator.go GenerateCallArgsForFunction by the `lazy` correspondence). Proved for every function object, argument list, machine state and amount of fuel (Props/C16.lean, 25 theorems): (a) preparing a call is its plan — a lazy position is `allocThunk` (one thunk with the expression, the current scope stack and function; one operand) and runs nothing, a strict position is exactly one evalCallExpr whose value is the operand, in order, all before callFunction (position forms lazy_not_evaluated_at_call / strict_args_evaluated_once_before_call, closed form for all-lazy calls, same effect for the compile-time PushLazyArgInstr); (b) force_memoises: a successful force stores its value, and after ANY further activity of the machine (Reach: instructions, calls, applies, forces, later program texts, failed or not) every force returns it with the state — trace included — unchanged; this rests on allPres (Proofs/Lazy.lean): all 13 mutually recursive functions of the machine, every instruction and outcome, only extend the thunk table (expression, captured stack, function immutable; a stored value stays); (c) force_in_callers_env: the thunk keeps the call site's scope stack and function for ever and force runs the compiled expression on exactly that stack inside a function closed over it with the call site's function as parent; lookups there equal the call site's lookups (force_lookup_is_callsite_lookup_partial, two hypotheses named); (d) strict_never_receives_thunk: the run-time, compile-time (self tail call) and apply/map decisions are one predicate of the function object the callee evaluated to, so name/alias/parameter/computed callee cannot differ (every non-tail call is one CallExprInstr: callee value first); variadic tails, Go builtins and unknown callees are strict; apply hands lazy positions already-forced value thunks; (e) source_recoverable: substitute returns the expression the thunk was made from, unevaluated, at any later time. The full statement LazySemantics (machine = call-by-need reference evaluator on class, value, trace for all programs) is stated, not proved; it is held by the 3-way correspondence of channel `lazy`: scenario generators over every mix of lazy/strict/variadic parameters x 16 call routes (direct, alias, parameter, three computed callees, apply array/list, map array/list, wrappers with locals / lazy parameter / closure over the free variable, recursion, self tail call, self tail call with a nested same-name defn, typed func) x 13 argument kinds (effects, errors, free variables, and expressions that only READ mutable state: bare variable, compound, closure calls) x mutation points (the callee changes that state before any use / between parameters / between two forces; later texts change it before and between forces of a kept thunk) x 19 use patterns (0/1/2/3 forces, nested closure, kept and forced in later texts, substitute, thunk of thunk, through strict/lazy/ignoring helpers, shadowing let) plus an exhaustive small scope, a malformed stream, and the history family `rebinding` (the callee a call site resolves to at run time differs in laziness/arity/kind from what the name denoted when the caller was compiled: redefinition by defn/def/set in a later text, shadowing by a parameter / let / closure variable of the same name, alias swap). T1: Generated/CallEmit.lean (where call instructions are built) with the expectation call_emit_sites_expected; compile_call_independent_of_bindings proves the model's generator ignores compile-time bindings for ordinary calls.",
     note="Trusted: Lean kernel; axioms propext/Classical.choice/Quot.sound. Model/VM.lean, Model/Gen.lean are hand-written and tied to the Go code only by differential testing (channels `lazy`, `eval`); Model/Prim.lean (builtins on values) and Model/LazySrc.lean (source shown as data) are shared by model and reference. Not proved: the execution half of the VM/reference simulation (binding operand i to formal i in the prologue; lookups of the forced expression beyond the partial theorem) — C02's CompileCorrect. Typed `func` declarations are not modelled: such ops are judged implementation vs reference after rewriting `func` to the `defn` it abbreviates (model column informational, stack depths not compared: FuncBuilder leaves one operand, C04's subject). By design of both sides a FAILED force stores nothing (a later force re-runs the expression) and a thunk forced re-entrantly from inside its own evaluation runs once per nesting level. Duplicate parameter names and (set #x ..) (silently ignored by UpdateInstr for sigil symbols) are outside the property and not generated.",
     technique="Lean 4 theorems over the executable VM model (whole-machine invariant by induction over the 13-function mutual block with a small program logic) and the call-by-need reference evaluator; 3-way model/spec/implementation correspondence through the line protocol (channel `lazy`)",
     design_ref="DESIGN.md §7 C16, §13; notes/C16.md",
@@ -94,7 +94,7 @@ def run(rep):
     rep.coverage["proved"] = ("Props/C16.lean: prepare_is_plan, lazy_not_evaluated_at_call (+_all_lazy, _pushLazy, allocThunk_effect), "
                               "force_returns_memo, force_memoises, machine_extends_thunk_table (allPres), thunk_keeps_call_site, force_in_callers_env, force_reads_at_force_time, "
                               "strict_args_evaluated_once_before_call, call_prepares_then_enters, every_call_route_resolves_at_run_time, "
-                              "strict_never_receives_thunk, apply_wraps_values, apply_lazy_position_gets_forced_thunk, self_tail_call_uses_own_template, "
+                              "compile_call_independent_of_bindings, call_emit_sites_expected (T1), strict_never_receives_thunk, apply_wraps_values, apply_lazy_position_gets_forced_thunk, self_tail_call_uses_own_template, "
                               "self_tail_call_lazy_position, source_recoverable, reference_is_call_by_need; all for every function object, argument "
                               "list, state and fuel")
     rep.coverage["partial"] = ("force_lookup_is_callsite_lookup_partial (hypotheses: closure-chain fuel adequacy, main's captured scopes add nothing); "
@@ -103,7 +103,7 @@ def run(rep):
     rep.coverage["rule"] = ("histories of 1-5 texts: 57 hand-written; exhaustive small scope (parameter lists of length 1-2 over {lazy,strict} x rest "
                             "{none, r, #r} x 16 routes x 6 use patterns x 4 argument kinds, state-reading kinds with the three mutation modes; one third per quick run rotating with the seed, all in "
                             "thorough); random scenarios (0-3 parameters, 13 argument kinds, 19 use patterns, 4 mutation modes, follow-up texts forcing kept thunks); "
-                            "malformed stream (one tree mutation or an arity error of the outer call); typed `func` scenarios (+std)")
+                            "malformed stream (one tree mutation or an arity error of the outer call); typed `func` scenarios (+std); rebinding histories of 8-9 texts (old binding x new binding x defn/def/set x argument kind exhaustive, half per quick run, plus random)")
     rep.assumptions += [
         "Model/VM.lean, Model/Gen.lean are hand-written; tied to the Go code by the `lazy`/`eval` correspondence only (class, value, trace, four stack depths per text)",
         "Model/Prim.lean and Model/LazySrc.lean (how source is shown as data) are shared by model and reference evaluator",
